@@ -52,9 +52,12 @@ func main() {
 	case "run":
 		var args []int64
 		rest := os.Args[4:]
-		for len(rest) > 0 && !strings.HasPrefix(rest[0], "-") {
+		for len(rest) > 0 {
 			v, err := strconv.ParseInt(rest[0], 0, 64)
 			if err != nil {
+				if strings.HasPrefix(rest[0], "-") {
+					break
+				}
 				fmt.Fprintln(os.Stderr, err)
 				os.Exit(2)
 			}
